@@ -35,6 +35,7 @@ def run(ctx):
     ctx.prove()
     rng = ctx.rng
     lits, cj = [], []
+    firsts = []
     n = 1500 if ctx.thorough else 300
     for i in range(n):
         nproc = rng.choice([0, 1, 1, 2, 3])
@@ -67,6 +68,8 @@ def run(ctx):
             escaped = escaped or exc
         calls = [p for w, _tp, _id, p in world.log if w == "metric"]
         cnt, _ = e2.stats_of(action)
+        if len(firsts) < 12:
+            firsts.append((jd, nproc, dict(loc), hits, calls))
         j = dict(metrics=jd, processors=nproc, hits=hits)
         ctx.case(dict(metrics=jd, processors=nproc), nontrivial=nproc > 0 and any(m["expr"] or m["labels"] for m in jd),
                  bucket="procs=%d" % nproc)
@@ -133,6 +136,21 @@ def run(ctx):
         cj.append(j)
         world.clear_pending()
     ctx.correspond("dispatch", IMPORTS, "metric_case", "check_metric_case", lits, cj, shard=100)
+    # what is reported depends on the definitions and the frame, not on the history of the process: the first cases again
+    for jd, nproc, loc, hits, calls in firsts:
+        world = e2.World(logger=False, spans=0, metrics=nproc)
+        defs = [MetricDefinition(m["name"], m["type"], [LabelExpression(l["key"], l["static"], l["expr"]) for l in m["labels"]],
+                                 m["expr"], m["namespace"], m["help"], m["unit"]) for m in jd]
+        action = LocationAction("tp-m", None, {"metrics": defs, "fire_count": "-1", "fire_period": "0"}, LocationAction.ActionType.Metric)
+        world.install([Trigger(LineLocation("m.py", 7, Location.Position.START), [action])])
+        for _h in range(hits):
+            world.event(e2.mk_frame("/app/m.py", "g", 7, dict(loc), f_globals={"__name__": "hostmod"}), "line")
+        again = [p for w, _tp, _id, p in world.log if w == "metric"]
+        ctx.case(dict(repeated=True, metrics=jd, processors=nproc), nontrivial=True, bucket="repeated")
+        if again != calls:
+            ctx.fail("the same definitions on the same frame, reported again at the end of the run: %r; at first: %r" % (
+                str(again)[:300], str(calls)[:300]), dict(metrics=jd, processors=nproc, hits=hits), kind="history", tag="depends-on-history")
+        world.clear_pending()
     # the set of active processors is whatever it is AT THE HIT: processors added to / removed from the live plugin list
     _RL, _RS, RecMetrics = e2.plugin_classes()
     for k in range(120 if ctx.thorough else 30):
